@@ -112,14 +112,24 @@ Definition tpx := (Z * Z * Z * Z)%type.
       disabled            — "alpha channel is ignored": the colour, opaque;
       bgcolor             — overlaid on the colour: opaque, the blend (to one unit) *)
 Definition near (x y : Z) : bool := Z.abs (x - y) <=? 1.
+(** under a kept alpha channel what is seen of a colour is colour * alpha: one unit of THAT
+    (Pillow resamples RGBA pictures in premultiplied space) *)
+Definition near_a (x y a : Z) : bool := (x =? y) || (Z.abs (x - y) * a <=? 255 + a).
+(** resampling then compositing: two roundings *)
+Definition gblend_ok (u src a out : Z) : bool :=
+  Z.abs (255 * out - (src * a + u * (255 - a))) <=? 510.
+Definition gover_ok (u : Z) (p : px) (o : Z * Z * Z) : bool :=
+  let '(r, g, b) := o in
+  gblend_ok (chan u 2) (p_r p) (p_a p) r && gblend_ok (chan u 1) (p_g p) (p_a p) g
+  && gblend_ok (chan u 0) (p_b p) (p_a p) b.
 Definition gpixel_ok (e : eff) (p : px) (o : tpx) : bool :=
   let '(r, g, b, a) := o in
   match e with
   | EThr _ _ _ =>
       (a =? p_a p)
-      && ((a =? 0) || (near r (p_r p) && near g (p_g p) && near b (p_b p)))
+      && ((a =? 0) || (near_a r (p_r p) a && near_a g (p_g p) a && near_a b (p_b p) a))
   | EOff => (a =? 255) && near r (p_r p) && near g (p_g p) && near b (p_b p)
-  | EUnder c => (a =? 255) && over_ok c p (r, g, b)
+  | EUnder c => (a =? 255) && gover_ok c p (r, g, b)
   end.
 
 (** the bytes of the file, undisturbed *)
